@@ -105,6 +105,13 @@ func famCheck(o *Out, r R, tier string) {
 			emit("padded-last", names, l)
 		}
 	}
+	// every byte value on either side of an allowed name (only SP and HTAB may be trimmed)
+	for bv := 0; bv < 256; bv++ {
+		c := string([]byte{byte(bv)})
+		emit("byte-adjacent", base, []string{c + "ab"})
+		emit("byte-adjacent", base, []string{"ab" + c})
+		emit("byte-adjacent", base, []string{"ab," + c + "x-foo" + c})
+	}
 	for i := 0; i < n; i++ {
 		k := 1 + r.Intn(6)
 		names := r.perm(nameUniverse)[:k]
